@@ -239,6 +239,10 @@ def build(program, rec, opts=None, name_prefix=""):
             attrs["js"] = spec["js"]
         if spec.get("css") is not None:
             attrs["css"] = spec["css"]
+        if spec.get("cssvars"):
+            # CSS variables: the instance's root elements additionally get a data-djc-css-<hash> attribute
+            attrs.setdefault("css", "/*css_%s*/" % spec["name"])
+            attrs["get_css_data"] = lambda self, *a, **k: {"c": "red"}
         if spec.get("media"):
             m = spec["media"]
             attrs["Media"] = type("Media", (), {k: v for k, v in m.items() if v is not None})
@@ -772,7 +776,7 @@ def flatten(tree, ids=None):
     return "".join(out)
 
 
-_STRIP_RE = re.compile(r"<!-- _RENDERED [^>]*?-->| data-djc-id-\w+(?:=\"\")?")
+_STRIP_RE = re.compile(r"<!-- _RENDERED [^>]*?-->| data-djc-(?:id|css)-\w+(?:=\"\")?")
 
 
 def normalize_real(html):
